@@ -103,3 +103,150 @@ class PubValBool(_ValBool):
     def counts(self, c, val):
         a = n_ac(c)
         return (1, a[1], a[2])
+
+
+# ---------------------------------------------------------------------------
+# boolean operators
+# ---------------------------------------------------------------------------
+
+def _bool_operand(c, kind, name):
+    if kind == "b":
+        return c.operand_bool(name)
+    if kind == "s":                       # plain LinComb holding 0/1: goes through _ensurebool (1 constraint)
+        x = c.operand(name)
+        cur().assume(is01(term(x.value)))
+        return x
+    if kind == "k1":
+        return 1
+    if kind == "k0":
+        return 0
+    raise ValueError(kind)
+
+
+def _bv(c, y):
+    return c.v(y) if not isinstance(y, int) else term(1 if y else 0)
+
+
+def _ba(c, y):
+    return c.eva(y) if not isinstance(y, int) else term(1 if y else 0)
+
+
+class _BoolBin(Contract):
+    table = None       # function on 0/1 terms
+    modules = ("pysnark.runtime", "pysnark.boolean")
+
+    def configs(self, tier):
+        return [dict(mode=m, kind=k) for m in MODES for k in ("b", "s", "k1", "k0")]
+
+    def setup(self, c, cfg):
+        apply_mode(c, cfg["mode"])
+        return getattr(c.LinCombBool, self.name.rsplit(".", 1)[1]), (c.operand_bool("x"), _bool_operand(c, cfg["kind"], "y")), {}
+
+    def raises(self, c, x, y):
+        if isinstance(y, c.LinComb):
+            return [(ValueError, Not(is01(c.v(y))))]
+        return []
+
+    def result(self, c, x, y):
+        return c.fresh_bool_lc(lift(self.table(c.v(x), _bv(c, y))), "bop")
+
+    def post(self, c, r, x, y):
+        xa, ya = c.eva(x), _ba(c, y)
+        hyp = And(is01(xa), is01(ya))
+        return {
+            "V.type": isinstance(r, c.LinCombBool),
+            "V.value": Implies(is01(c.v(x)), Eq(c.v(r), self.table(c.v(x), _bv(c, y)))),
+            "V.inv": c.inv(r),
+            "S.table": Implies(hyp, c.eva(r) == self.table(xa, ya)),
+            "S.bool": Implies(hyp, is01(c.eva(r))),
+        }
+
+    def counts(self, c, x, y):
+        if isinstance(y, int):
+            return (0, 0, 0)
+        n = (0, 1, 1)
+        if isinstance(y, c.LinComb):
+            n = addc(n, n_ac(c))
+        return n
+
+
+@register
+class BAnd(_BoolBin):
+    name = "pysnark.boolean:LinCombBool.__and__"
+    table = staticmethod(lambda a, b: z3.If(z3.And(a == 1, b == 1), Z(1), Z(0)))
+
+
+@register
+class BOr(_BoolBin):
+    name = "pysnark.boolean:LinCombBool.__or__"
+    table = staticmethod(lambda a, b: z3.If(z3.Or(a == 1, b == 1), Z(1), Z(0)))
+
+
+@register
+class BXor(_BoolBin):
+    name = "pysnark.boolean:LinCombBool.__xor__"
+    table = staticmethod(lambda a, b: z3.If(a != b, Z(1), Z(0)))
+
+
+@register
+class BNot(Contract):
+    name = "pysnark.boolean:LinCombBool.__invert__"
+
+    def configs(self, tier):
+        return [dict(mode=m) for m in ("plain", "g1", "g0")]
+
+    def setup(self, c, cfg):
+        apply_mode(c, cfg["mode"])
+        return c.LinCombBool.__invert__, (c.operand_bool("x"),), {}
+
+    def use_stub(self, c, x):
+        return False
+
+    def raises(self, c, x):
+        return [(ValueError, Not(is01(c.v(x))))]
+
+    def post(self, c, r, x):
+        return {
+            "V.type": isinstance(r, c.LinCombBool),
+            "V.value": Eq(c.v(r), 1 - c.v(x)),
+            "V.inv": c.inv(r),
+            "S.not": c.eva(r) == (1 - c.eva(x)) % c.p,
+        }
+
+    def counts(self, c, x):
+        return (0, 0, 0)
+
+
+@register
+class EnsureBool(Contract):
+    name = "pysnark.boolean:LinCombBool._ensurebool"
+
+    def configs(self, tier):
+        return [dict(mode=m, kind=k) for m in ("plain", "ie", "g0") for k in ("b", "s", "k1")]
+
+    def setup(self, c, cfg):
+        apply_mode(c, cfg["mode"])
+        y = _bool_operand(c, cfg["kind"], "y") if cfg["kind"] != "s" else c.operand("y")
+        return c.LinCombBool._ensurebool, (y,), {}
+
+    def use_stub(self, c, *a):
+        return False
+
+    def raises(self, c, *a):
+        y = a[-1]
+        if isinstance(y, c.LinCombBool):
+            return []
+        if isinstance(y, c.LinComb):
+            return [(ValueError, Not(is01(c.v(y))))]
+        return [(ValueError, Not(is01(term(y))))]
+
+    def post(self, c, r, *a):
+        y = a[-1]
+        d = {"V.type": isinstance(r, c.LinCombBool), "V.value": Eq(c.v(r), _bv(c, y) if not isinstance(y, int) else term(y))}
+        if isinstance(y, c.LinComb):
+            d["S.bool"] = Implies(on(c), is01(c.eva(r)))
+        return d
+
+    def counts(self, c, *a):
+        y = a[-1]
+        return (0, 0, 0) if isinstance(y, c.LinCombBool) else n_ac(c)
